@@ -15,7 +15,7 @@ CHECK = {
   'level': 'model_checking',
   'rule': ('explicit-state breadth-first search over all histories up to the depth bound of a 49-operation alphabet on ONE real File '
            'object and two paths in a per-run scratch directory: sopen(path 0|1, "w+b"|"rb"|"r+b"|"ab") (also on an already open File and on '
-           'the second path), sclose, stell, seof, sflush, swrite("" | "x" | "\\0y\\0" | 8193-byte block), sread(0|1|3|8193), '
+           'the second path), sclose, stell, seof, sflush, swrite("" | "\\xff" | "\\0y\\0" | 8193-byte block holding every byte value, period 509), sread(0|1|3|8193), '
            'sseek({0,1,-1} x {SEEK_SET,SEEK_CUR,SEEK_END}), sseek(stell, SEEK_SET) (a seek that moves nowhere), print_to("%s %li;", "k" | 257 x "k", 42), scan_from of such a record, '
            'with(f in file){ nothing | sclose | stell | swrite | sread | print_to | sopen }, del followed by new_raw(File) / new(File) / '
            'new_raw(File,path,mode) / a stack-allocated File (released with destruct only), destruct(file) with the object kept (it is then a File that is '
@@ -37,10 +37,13 @@ CHECK = {
            'at least one previously written byte correctly (sread / scan_from) or closed a non-empty file whose on-disk bytes were compared.  '
            'Ladder instances: print_to of one N-character %s conversion followed by %li (N = 0..300, 511..513, 1023..1025, 4095..4097, 5000, 8191..8193, '
            '20000) on "w+b" / after re-opening "rb" / twice on "ab", read back with sread and scan_from, compared with the text printed, fprintf/fread/'
-           'fscanf on the twin and the twin file on disk'),
+           'fscanf on the twin and the twin file on disk; then the byte sweep: a 256-byte block holding every byte value once (0xFF last / 0xFF first) '
+           'written with one swrite or 256 single-byte swrites and read back with sread(f,&b,1) x 257 (result, byte, seof, stell after every byte), then '
+           '2-, 3- and 255-byte reads at each offset around the 0xFF byte, on a regular file, the same re-opened "rb", tmpfile(), fmemopen() and a pipe, '
+           'each against the same kind of stream driven with plain stdio'),
   'bounds': {
-    'quick': 'all histories of depth <= 5 over the full 49-operation alphabet (gcc build); depth <= 4 under ASan+UBSan; print ladder N = 0..300 and 14 larger sizes up to 20000 x 3 variants (gcc and ASan)',
-    'thorough': 'all histories of depth <= 7 over the full 49-operation alphabet (gcc build); depth <= 6 under ASan+UBSan; the same print ladder',
+    'quick': 'all histories of depth <= 5 over the full 49-operation alphabet (gcc build); depth <= 4 under ASan+UBSan; print ladder N = 0..300 and 14 larger sizes up to 20000 x 3 variants, byte sweep 5 backends x 2 layouts x 2 write chunkings (gcc and ASan)',
+    'thorough': 'all histories of depth <= 7 over the full 49-operation alphabet (gcc build); depth <= 6 under ASan+UBSan; the same print ladder and byte sweep',
   },
   'assumptions': [
     'glibc stdio is the reference for the twin stream; a disagreement between the twin and the harness\'s own byte-array model is reported as a harness error (exit 2), never as a verdict',
